@@ -198,6 +198,8 @@ def run(ctx, rep, model=True):
                                       integral_time=(i % 10 == 9))
         if i % 6 == 2:
             spec["near_one"] = True; rep.count("mass-fractions-summing-to-one-within-1e-5")
+        if i % 6 in (0, 5):
+            spec["undershoot"] = True; rep.count("negative-mass-fractions-in-some-cells")
         gradp, reactions, floor = [(True, False, True), (True, True, True), (False, False, False), (False, True, True),
                                    (True, True, False)][i % 5]
         source = ["list", "refY", "refIR"][i % 3]
